@@ -100,6 +100,9 @@ struct Model {
     rows: BTreeMap<String, BTreeMap<u64, MRow>>,
     named: BTreeSet<String>,
     ids: BTreeSet<u64>,
+    /// keyspaces whose name the backend refused (LMDB: a database name over 511 bytes); they hold
+    /// nothing in the model, and the backend must not list them either
+    refused: BTreeSet<String>,
 }
 
 static DIR_CTR: AtomicU64 = AtomicU64::new(0);
@@ -132,7 +135,16 @@ fn fmt_meta(v: &[(Key, HLCTimestamp, bool)]) -> String {
 }
 
 async fn audit<S: Storage>(s: &S, m: &Model, b: &str, when: &str, out: &mut Outcome) {
+    let mut refused: BTreeSet<String> = m.refused.clone();
     for ks in &m.named {
+        if m.refused.contains(ks) {
+            continue;
+        }
+        // (a name LMDB refuses may have been named by a read only: the read is refused the same way)
+        if b == "lmdb" && ks.len() >= 498 && m.rows.get(ks).map(|r| r.is_empty()).unwrap_or(true) && s.iter_metadata(ks).await.is_err() {
+            refused.insert(ks.clone());
+            continue;
+        }
         let empty = BTreeMap::new();
         let rows = m.rows.get(ks).unwrap_or(&empty);
         match s.iter_metadata(ks).await {
@@ -193,6 +205,19 @@ async fn audit<S: Storage>(s: &S, m: &Model, b: &str, when: &str, out: &mut Outc
             if !set.is_subset(&m.named) {
                 out.violate(format!("C17/{b}/keyspace-list-names-unknown-keyspace"), format!("{when}: list {:?}, named so far {:?}", list, m.named));
             }
+            // a keyspace whose creation failed holds nothing; if the backend lists it all the same,
+            // a restart (which loads every listed keyspace) must at least be able to read it
+            for ks in set.iter().filter(|k| refused.contains(*k)) {
+                match s.iter_metadata(ks).await {
+                    Ok(it) => {
+                        let n = it.count();
+                        if n != 0 {
+                            out.violate(format!("C17/{b}/metadata-differs-from-model"), format!("{when}: refused keyspace of {} bytes lists {n} rows", ks.len()));
+                        }
+                    },
+                    Err(e) => out.violate(format!("C17/{b}/listed-keyspace-cannot-be-read"), format!("{when}: the keyspace list names a keyspace ({} bytes) whose creation failed, and iter_metadata on it fails: {e}", ks.len())),
+                }
+            }
         },
         Err(e) => out.violate(format!("C17/{b}/unexpected-error/get_keyspace_list"), format!("{when}: {e}")),
     }
@@ -202,8 +227,14 @@ async fn audit<S: Storage>(s: &S, m: &Model, b: &str, when: &str, out: &mut Outc
 async fn do_call<S: Storage>(s: &S, m: &mut Model, c: &Call, b: &str, i: usize, tolerate_full: bool, out: &mut Outcome, tr: &mut Fnv) -> bool {
     let when = format!("call #{i} {}", call_name(c));
     macro_rules! fail {
-        ($name:expr, $e:expr) => {{
+        ($name:expr, $e:expr, $ks:expr) => {{
             let msg = format!("{}", $e);
+            if b == "lmdb" && $ks.len() >= 498 && m.rows.get($ks).map(|r| r.is_empty()).unwrap_or(true) {
+                // "datacake-<name>-meta" exceeds LMDB's 511-byte limit for a database name
+                out.fault("keyspace_name_refused");
+                m.refused.insert($ks.clone());
+                return false;
+            }
             if tolerate_full && (msg.contains("MDB_MAP_FULL") || msg.contains("MapFull") || msg.to_lowercase().contains("map") && msg.to_lowercase().contains("full")) {
                 out.fault("disk_full_error");
                 return false;
@@ -223,7 +254,7 @@ async fn do_call<S: Storage>(s: &S, m: &mut Model, c: &Call, b: &str, i: usize, 
             let d = Document::new(doc.id, doc.ts.ts(), doc.data());
             let r = if *with_ctx { s.put_with_ctx(ks, d, None).await } else { s.put(ks, d).await };
             if let Err(e) = r {
-                fail!("put", e);
+                fail!("put", e, ks);
             }
             m.rows.entry(ks.clone()).or_default().insert(doc.id, MRow { ts: doc.ts.ts(), data: Some(doc.data()) });
         },
@@ -244,7 +275,7 @@ async fn do_call<S: Storage>(s: &S, m: &mut Model, c: &Call, b: &str, i: usize, 
                         }
                     }
                 }
-                fail!("multi_put", e);
+                fail!("multi_put", e, ks);
             }
             for d in docs {
                 m.rows.entry(ks.clone()).or_default().insert(d.id, MRow { ts: d.ts.ts(), data: Some(d.data()) });
@@ -254,7 +285,7 @@ async fn do_call<S: Storage>(s: &S, m: &mut Model, c: &Call, b: &str, i: usize, 
             m.named.insert(ks.clone());
             m.ids.insert(*id);
             if let Err(e) = s.mark_as_tombstone(ks, *id, ts.ts()).await {
-                fail!("mark_as_tombstone", e);
+                fail!("mark_as_tombstone", e, ks);
             }
             m.rows.entry(ks.clone()).or_default().insert(*id, MRow { ts: ts.ts(), data: None });
         },
@@ -265,7 +296,7 @@ async fn do_call<S: Storage>(s: &S, m: &mut Model, c: &Call, b: &str, i: usize, 
             }
             let it: Vec<DocumentMetadata> = items.iter().map(|(id, ts)| DocumentMetadata::new(*id, ts.ts())).collect();
             if let Err(e) = s.mark_many_as_tombstone(ks, it.into_iter()).await {
-                fail!("mark_many_as_tombstone", e);
+                fail!("mark_many_as_tombstone", e, ks);
             }
             for (id, ts) in items {
                 m.rows.entry(ks.clone()).or_default().insert(*id, MRow { ts: ts.ts(), data: None });
@@ -277,7 +308,7 @@ async fn do_call<S: Storage>(s: &S, m: &mut Model, c: &Call, b: &str, i: usize, 
             let legal: Vec<u64> = ids.iter().copied().filter(|id| m.rows.get(ks).and_then(|r| r.get(id)).map(|r| r.data.is_none()).unwrap_or(false)).collect();
             let legal: Vec<u64> = legal.into_iter().collect::<BTreeSet<_>>().into_iter().collect();
             if let Err(e) = s.remove_tombstones(ks, legal.clone().into_iter()).await {
-                fail!("remove_tombstones", e);
+                fail!("remove_tombstones", e, ks);
             }
             for id in legal {
                 m.rows.entry(ks.clone()).or_default().remove(&id);
@@ -294,7 +325,7 @@ async fn do_call<S: Storage>(s: &S, m: &mut Model, c: &Call, b: &str, i: usize, 
                         out.violate(format!("C17/{b}/get-differs-from-model"), format!("{when}: keyspace {ks} id {id}: got {:?} want {:?}", got.as_ref().map(|g| (g.0.to_string(), g.1.len())), want.as_ref().map(|g| (g.0.to_string(), g.1.len()))));
                     }
                 },
-                Err(e) => fail!("get", e),
+                Err(e) => fail!("get", e, ks),
             }
         },
         Call::MultiGet { ks, ids } => {
@@ -311,7 +342,7 @@ async fn do_call<S: Storage>(s: &S, m: &mut Model, c: &Call, b: &str, i: usize, 
                         out.violate(format!("C17/{b}/multi_get-differs-from-model"), format!("{when}: keyspace {ks} ids {:?}: got ids {:?} want ids {:?}", uniq, got.iter().map(|g| g.0).collect::<Vec<_>>(), want.iter().map(|g| g.0).collect::<Vec<_>>()));
                     }
                 },
-                Err(e) => fail!("multi_get", e),
+                Err(e) => fail!("multi_get", e, ks),
             }
         },
         Call::IterMetadata { ks } => {
@@ -633,6 +664,13 @@ impl Check for C17 {
             3 => vec!["\u{43a}\u{43b}\u{44e}\u{447}".into(), "ks 1".into(), " ks1".into()],
             4 => vec!["a".into(), "aa".into(), "aaa".into()],
             5 => vec![" ".into(), "  ".into(), "k".repeat(200)],
+            // names around LMDB's 511-byte limit for "datacake-<name>-kv" / "-meta"
+            6 => {
+                let l = rng.gen_range(494..=514);
+                let mut v = vec!["n".repeat(l), "ks-1".to_string(), "n".repeat(l - 1)];
+                v.rotate_left(rng.gen_range(0..3));
+                v
+            },
             _ => (0..3).map(|i| format!("ks-{i}")).collect(),
         };
         let kss: Vec<String> = family.into_iter().take(nks).collect();
